@@ -171,13 +171,9 @@ func ReadFile(r Reader, out interface{}, cb func(val unsafe.Pointer, rb *Resourc
 		if err != nil {
 			return fmt.Errorf("reading data block length. %w", err)
 		}
-		if cap(compressed) < int(dataLength) {
-			compressed = make([]byte, dataLength)
-		} else {
-			compressed = compressed[:dataLength]
-		}
-		if n, err := io.ReadFull(r, compressed); err != nil {
-			return fmt.Errorf("reading %d bytes of compressed data: %w after %d bytes", dataLength, err, n)
+		compressed, err = readN(r, compressed, dataLength)
+		if err != nil {
+			return fmt.Errorf("reading %d bytes of compressed data: %w after %d bytes", dataLength, err, len(compressed))
 		}
 		uncompressed, err := decoder.decompress(compressed)
 		if err != nil {
@@ -261,9 +257,41 @@ func readBytes(r Reader) ([]byte, error) {
 	if err != nil {
 		return nil, err
 	}
-	v := make([]byte, l)
-	_, err = io.ReadFull(r, v)
-	return v, err
+	return readN(r, nil, l)
+}
+
+// readN reads exactly n bytes from r, re-using buf if it is big enough. A
+// declared length that buf cannot already hold is not trusted for allocation:
+// the buffer grows as data actually arrives, so a corrupt length costs no more
+// memory than the input provides.
+func readN(r io.Reader, buf []byte, n int64) ([]byte, error) {
+	if n < 0 {
+		return buf[:0], fmt.Errorf("negative length %d", n)
+	}
+	if int64(cap(buf)) >= n {
+		buf = buf[:n]
+		_, err := io.ReadFull(r, buf)
+		return buf, err
+	}
+	buf = buf[:0]
+	for int64(len(buf)) < n {
+		step := int64(len(buf))
+		if step < 64<<10 {
+			step = 64 << 10
+		}
+		if step > n-int64(len(buf)) {
+			step = n - int64(len(buf))
+		}
+		start := len(buf)
+		buf = append(buf, make([]byte, step)...)
+		if m, err := io.ReadFull(r, buf[start:]); err != nil {
+			if err == io.EOF {
+				err = io.ErrUnexpectedEOF
+			}
+			return buf[:start+m], err
+		}
+	}
+	return buf, nil
 }
 
 func (fh FileHeader) schema() (schema Schema, err error) {
